@@ -169,6 +169,9 @@ class DictionaryDataBase(DataBase):
             Index of the data to be updated.
         """
         with self._lock:
+            if index not in self.database:
+                # Deleted in the meantime: an update does not bring the object back.
+                return False
             self.database[index] = data
             return True
 
